@@ -38,7 +38,7 @@ def run(ctx):
         exe = lib.build_driver("c12_coords")
         env = {"VERIF_SEED": str(ctx.seed)}
         t1 = os.path.join(ctx.work, "db.ndjson")
-        lib.run_driver(exe, ["db", t1, 8 if q else 48, 0 if q else 1, ctx.work], env=env, timeout=1500)
+        lib.run_driver(exe, ["db", t1, 8 if q else 32, 0 if q else 1, ctx.work], env=env, timeout=1500)
         t2 = os.path.join(ctx.work, "arc.ndjson")
         lib.run_driver(exe, ["arc", t2, 10 if q else 40, 0 if q else 1], env=env, timeout=900)
         traces = [t1, t2]
@@ -109,7 +109,7 @@ def run(ctx):
     ctx.extra["observations_by_kind"] = kinds
     ctx.exhaustive = False
     ctx.assumptions = [
-        "closed-form coordinates = detector-pair averages (C1, C2) and the round-trip theorem (C4, C5) are model-checked for N <= %d detectors, R <= %d rings (N = 4 up to %d rings) and assumed for larger scanners, where every recorded bin is compared with the closed forms" % ((6, 3, 5) if q else (10, 4, 6)),
+        "closed-form coordinates = detector-pair averages (C1, C2) and the round-trip theorem (C4, C5) are model-checked for N <= %d detectors, R <= %d rings (N = 4 up to %d rings) and assumed for larger scanners, where every recorded bin is compared with the closed forms" % ((6, 3, 5) if q else (8, 3, 6)),
         "agreement is decided in natural units with residual <= 1e-3 unit; quantities involving the chord length (tan theta, end points of the reported line, detector-pair lines) only for |s| <= 0.95 R",
         "arc-corrected bins whose line does not cross the detector ring (|s| >= R) have no line of response: nothing claimed",
         "Blocks/Generic: only the discrete clauses (round trip, monotone/antisymmetric s on the representation next to the view angle, opposite obliqueness) are decided; Generic scanners are the cylindrical lay-out handed over as a crystal map",
